@@ -188,6 +188,17 @@ class Proto:
 
         return [
             (r"CompoundFile::<F>::(is_stream|exists|is_storage)(::<.*>)?$", m_query_bool),
+            (r"CompoundFile::<F>::remove_stream::<", fallible("remove_stream", "unit")),
+            (r"^is_reserved_table_name$", lambda ex, callee, args, pc, events: [(pc, events, BoolV(P.ctx.fresh_bool("reserved_name").term))]),
+            (r"Table::is_valid_name$", lambda ex, callee, args, pc, events: [(pc, events, BoolV(P.ctx.fresh_bool("valid_name").term))]),
+            (r"BTreeMap::<String, Rc<Table>>::contains_key::<", lambda ex, callee, args, pc, events: [(pc, events, BoolV(P.ctx.fresh_bool("table_exists").term))]),
+            (r"BTreeMap::<String, Rc<Table>>::get::<", lambda ex, callee, args, pc, events: [(pc, events, EnumV(variant=1, fields=[OpaqueV("rc-table")]))]),
+            (r"BTreeMap::<String, Rc<Table>>::remove::<", lambda ex, callee, args, pc, events: [(pc, events + [("tables_remove",)], OpaqueV("removed"))]),
+            (r"<Rc<Table> as Deref>::deref$", lambda ex, callee, args, pc, events: [(pc, events, OpaqueV("table"))]),
+            (r"Table::stream_name$", lambda ex, callee, args, pc, events: [(pc, events, StrV("stream-of-dropped-table"))]),
+            (r"Delete::from::<", lambda ex, callee, args, pc, events: [(pc, events, OpaqueV("Delete(from=%s)" % (lambda v: v.s if isinstance(v, StrV) else getattr(v, "what", repr(v)))(ex.load(args[0]))))]),
+            (r"Delete::with$", lambda ex, callee, args, pc, events: [(pc, events, args[0])]),
+            (r"Expr::(col|string|eq|integer)(::<.*>)?$", lambda ex, callee, args, pc, events: [(pc, events, OpaqueV("expr"))]),
             (r"CompoundFile::<F>::create_stream::<", fallible("create_stream", "stream")),
             (r"CompoundFile::<F>::open_stream::<", fallible("open_stream", "stream")),
             (r"CompoundFile::<F>::flush$", fallible("comp_flush", "unit")),
@@ -243,6 +254,16 @@ def _confirm(model, native):
         k = sorted(failed)[0]
         return True, "public-API scenario %s: %s" % (k, failed[k][:300])
     return False, "all %d public-API protocol scenarios pass natively" % len([k for k in out if not k.startswith("_")])
+
+
+def _confirm_drop_table(model, native):
+    out = native("native::c01::replay_c08_drop_table_strings", {})
+    if not out.get("_ran"):
+        return None, "native replay did not run"
+    if out.get("_panicked"):
+        return True, "native drop_table scenario panicked: %s" % out.get("_panic_msg")
+    return (out.get("leftover") == 1), ("text of a dropped table's rows is still in the saved _StringData" if out.get("leftover") == 1
+                                         else "no text of the dropped table is left in the saved file")
 
 
 def protocol_groups(mir, ctx, which):
@@ -425,6 +446,47 @@ def protocol_groups(mir, ctx, which):
                 if nret == 0:
                     raise EncodingError("protocol: no return path through %s" % name)
         groups.append(g)
+    # ---------------------------------------------------------------- drop_table (C08)
+    if "drop_table" in which:
+        g = Group("protocol_drop_table", ["package::Package::drop_table", "package::Package::delete_rows"], confirm=_confirm_drop_table,
+                  note="drop_table: an argument error (reserved / invalid / unknown name) is returned before any mutation; a successful "
+                       "drop first releases the rows of the dropped table (a Delete on that table, so that their strings leave the pool), "
+                       "removes the table stream and deletes the table's rows from the three catalogue tables")
+        for fin in (False, True):
+            tag = "drop_table_%s" % ("armed" if fin else "unarmed")
+            s, p, outs = P.run(r"package::.*::drop_table$", fin, tag, extra_args=1, havoc=True)
+            get = {"summary_dirty_before": s.term, "pool_dirty_before": p.term}
+            nok = 0
+            for o in outs:
+                if o.kind == "panic":
+                    continue
+                if o.kind != "return":
+                    continue
+                evs = o.events
+                names = [e[0] for e in evs]
+                failing = [e for e in evs if e[-1] == "Err"]
+                mutating = [e for e in evs if e[0] in ("remove_stream", "exec", "tables_remove", "create_stream")]
+                if not _is_ok(o.value) and not failing and mutating:
+                    q(g, "mutates_before_error_" + tag, o.pc, "drop_table returns an argument error after it already ran %r" % (mutating[0][:2],), get)
+                if _is_ok(o.value):
+                    nok += 1
+                    own = [i for i, e in enumerate(evs) if e[0] == "exec" and any("Delete(from=arg0" in str(x) for x in e)]
+                    rs = [i for i, e in enumerate(evs) if e[0] == "remove_stream"]
+                    if not own:
+                        q(g, "rows_not_released_" + tag, o.pc, "drop_table succeeds without deleting the dropped table's own rows: the strings they "
+                                                                "reference stay counted in the pool and their text stays in the saved file", get)
+                    elif rs and own[0] > rs[0]:
+                        q(g, "rows_released_late_" + tag, o.pc, "drop_table removes the table stream before releasing its rows", get)
+                    for cat in ("_Validation", "_Columns", "_Tables"):
+                        if not any(e[0] == "exec" and any("Delete(from=%s" % cat in str(x) for x in e) for e in evs):
+                            q(g, "catalog_" + tag, o.pc, "drop_table succeeds without deleting the table's rows from %s" % cat, get)
+                    if "tables_remove" not in names:
+                        q(g, "registry_" + tag, o.pc, "drop_table succeeds without removing the table from the in-memory table list", get)
+                g.witness.append(Query("w_%s_%d" % (tag, len(g.witness)), o.pc, "sat"))
+            if nok == 0:
+                raise EncodingError("protocol: drop_table has no successful path")
+        groups.append(g)
+
     # ---------------------------------------------------------------- read-only entry points (C16)
     if "readonly" in which:
         g = Group("protocol_readonly", ["package::Package::select_rows", "package::Package::read_stream", "package::Package::flush",
